@@ -491,9 +491,11 @@ def check_e2e(ctx, problem, cfg, prop='C01', label='random', workdir=None,
         return False
     fails = U.c01_predicate(tree, cfg, problem['cell_ids'], r['results'],
                             r['out_tree'])
-    # the chunks the workers really saw: they must tile the rows, and rows
-    # r0:r1 must travel with the names obs[r0:r1]
-    chunk_diff = None
+    # the chunks the workers really saw (hook trace): they must tile the rows
+    # -- consecutive, none empty, ending at the last row -- and rows r0:r1 must
+    # travel with the names obs[r0:r1].  HOW the rows are cut (chunk size
+    # clamp, evening out) is not constrained by the property.
+    borders = None
     if r['chunks'] is not None and not fails:
         n = len(problem['cell_ids'])
         got = [(a, b) for a, b, _ in r['chunks']]
@@ -511,16 +513,18 @@ def check_e2e(ctx, problem, cfg, prop='C01', label='random', workdir=None,
             fails.append(('name-chunk', 'rows r0:r1 were paired with other '
                           'names than obs[r0:r1]'))
         else:
-            cs, want = U.indep_chunks(n, cfg['n_processors'],
-                                      cfg['chunk_size'])
-            if got != want:
-                chunk_diff = {'field': 'chunks', 'impl': got, 'model': want}
+            borders = got
+            ctx.count('e2e:chunks:%s' % (
+                'as-clamp' if got == U.indep_chunks(
+                    n, cfg['n_processors'], cfg['chunk_size'])[1]
+                else 'other-tiling'))
     if fails:
         ctx.violation('%s/map/%s' % (prop, fails[0][0]),
                       'run_mapping output breaks C01: ' + fails[0][1],
                       dict(detail, fails=fails[:3]))
     if ctx.driver_ok:
-        diff = chunk_diff or U.model_pipeline(ctx, problem, cfg, r['results'])
+        diff = U.model_pipeline(ctx, problem, cfg, r['results'],
+                                borders=borders)
         ctx.traces += 1
         if diff is not None:
             ctx.disagreements_checked += 1
